@@ -227,20 +227,15 @@ def check(ctx, run):
             continue
         n4 += 1
         run.analysed(f)
-        ptr = f.params[0]["name"]
-        ok = True
-        wit = []
-        for p in enumerate_paths(f):
-            seq = []
-            for c in path_calls(prog, f, p):
-                nm = (prog.callee_name(f, c) or "").split("::")[-1]
-                if nm == "invalidateMemory":
-                    seq.append(("invalidate", render(f, f.args(c)[0], keep_explicit_casts=False)))
-                if nm == "deallocMemory":
-                    seq.append(("dealloc", render(f, f.args(c)[1], keep_explicit_casts=False)))
-            wit.append(seq)
-            if seq != [("invalidate", ptr), ("dealloc", ptr)]:
-                ok = False
+        from .C10 import slot_fold
+        try:
+            events, r_, end_, env_ = slot_fold(prog, f)
+        except Unknown as u:
+            run.broke("C06.R4: release wrapper %s cannot be folded: %s" % (f.qn, u))
+            continue
+        blk = env_[f.params[0]["name"]]
+        wit = [(e[1], e[2]) for e in events if e[0] == "detector"]
+        ok = (len(wit) == 2 and wit[0][0] == "invalidateMemory" and wit[0][1][:1] == (blk,) and wit[1][0] == "deallocMemory" and wit[1][1][1:2] == (blk,))
         run.ob("R4", "%s poisons the block before releasing it" % f.qn, f.site, ok, witness=wit,
                what="" if ok else "the user bytes reach the underlying free unpoisoned (or a different pointer is poisoned)")
     if n4 < 6:
